@@ -277,7 +277,8 @@ def c04(tier, seed):
             jobs.append(J('vh_c04_table', [n, m, mask + 1], 'Hopcroft on %d-state %d-letter tables with final set mask %s (successors symbolic)' % (n, m, bin(mask)), cost=n ** (n * m)))
     jobs += built_jobs(tier, [2, 3])
     return {'jobs': jobs,
-            'bounds': 'Minimizer::refine on every complete transition table with %s (states x letters): all successors and final flags symbolic, '
+            'bounds': ('QUICK ADDS: 5-state 1-letter tables with final sets {2,4}, {0,1}, {1,2,3} (successors symbolic). ' if tier == 'quick' else '') +
+                      'Minimizer::refine on every complete transition table with %s (states x letters): all successors and final flags symbolic, '
                       'compared with Moore distinguishability; Automaton::minimize on builder-made automata of shapes %s: bisimulation of initial '
                       'states on the union automaton (language equality for strings of any length on that path), pairwise distinguishable result, '
                       'state count = Nerode index; compiled expressions are covered in C02' % (nm, built_shapes(tier)),
